@@ -117,6 +117,13 @@ def gen_program(rng, prop, tier, run_index):
                    ppd=(None if rng.random() < 0.7 else int(rng.integers(0, 2))),
                    nblocks=int(rng.integers(1, 5)), blockseed=int(rng.integers(0, 2**31)),
                    dt=float(10.0 ** rng.uniform(-1, 1)))
+        if cfg['nblocks'] > 1 and cfg['mode2D'] == 'plane strain':
+            # runs with a block replica: exercise the projection options of the multi-block factory evenly,
+            # on meshes where the projection is not the identity (order >= 2)
+            cfg['ppd'] = [None, 0, 1][int(rng.integers(0, 3))]
+            if rng.random() < 0.6:
+                cfg['mesh']['order'] = max(cfg['mesh']['order'], 2)
+                cfg['mesh']['nx'], cfg['mesh']['ny'] = min(cfg['mesh']['nx'], 3), min(cfg['mesh']['ny'], 3)
         cfg['helpers'] = bool(prop == 'C07')
         if prop == 'C07':
             cfg.update(mode2D='plane strain', ppd=None, nblocks=1)
